@@ -177,38 +177,65 @@ fn a(parts: &[&[u8]]) -> Argv {
 /// If no candidate fits (e.g. RANDOMKEY has been repaired to look at all shards) the replica
 /// read from the source (generic = str, fast = bytes) is used uncalibrated.
 fn calibrate() -> Routing {
-    let obs: Vec<(usize, Vec<u8>, bool, bool)> = vcore::block_on(async {
-        let mut out = Vec::new();
-        for n in [2usize, 4] {
-            let time = VerifTime::new(0);
-            let st = mk_state(n, &time);
-            for k in pool_keys() {
-                exec_generic(&st, &a(&[b"FLUSHALL"])).await;
-                exec_generic(&st, &a(&[b"SET", &k, b"1"])).await;
-                let g = exec_generic(&st, &a(&[b"RANDOMKEY"])).await != Reply::Nil;
-                exec_generic(&st, &a(&[b"FLUSHALL"])).await;
-                st.fast_set(Bytes::copy_from_slice(&k), Bytes::from_static(b"1")).await;
-                let f = exec_generic(&st, &a(&[b"RANDOMKEY"])).await != Reply::Nil;
-                out.push((n, k, g, f));
-            }
-        }
-        out
-    });
-    use HashMode::*;
-    for (g, f) in [(Str, Raw), (Str, Str), (Raw, Raw), (Raw, Str)] {
-        if obs
-            .iter()
-            .all(|(n, k, og, of)| (shard_of(g, k, *n) == 0) == *og && (shard_of(f, k, *n) == 0) == *of)
-        {
-            return Routing {
-                generic: g,
-                fast: f,
-                calibrated: true,
-            };
+    // Two public views of "what does shard 0 hold": RANDOMKEY where it only asks shard 0
+    // (KF-C03-03, repaired in /repo 2251e33: then it answers for the whole keyspace and the view
+    // is uninformative), and the first page of SCAN where the cursor names the shard (the
+    // sharded SCAN since /repo 3d8557f: `SCAN 0 COUNT 1000` lists shard 0 only). A view in which
+    // every key of the pool is "on shard 0" at 2 and at 4 shards says nothing and is skipped.
+    async fn shard0_randomkey(st: &State, _k: &[u8]) -> bool {
+        exec_generic(st, &a(&[b"RANDOMKEY"])).await != Reply::Nil
+    }
+    async fn shard0_scan(st: &State, k: &[u8]) -> bool {
+        match exec_generic(st, &a(&[b"SCAN", b"0", b"COUNT", b"1000"])).await {
+            Reply::Array(parts) if parts.len() == 2 => match &parts[1] {
+                Reply::Array(keys) => keys.iter().any(|x| matches!(x, Reply::Bulk(b) if b.as_slice() == k)),
+                _ => false,
+            },
+            _ => false,
         }
     }
+    let views: Vec<Vec<(usize, Vec<u8>, bool, bool)>> = vcore::block_on(async {
+        let mut views = Vec::new();
+        for view in 0..2 {
+            let mut out = Vec::new();
+            for n in [2usize, 4] {
+                let time = VerifTime::new(0);
+                let st = mk_state(n, &time);
+                for k in pool_keys() {
+                    exec_generic(&st, &a(&[b"FLUSHALL"])).await;
+                    exec_generic(&st, &a(&[b"SET", &k, b"1"])).await;
+                    let g = if view == 0 { shard0_randomkey(&st, &k).await } else { shard0_scan(&st, &k).await };
+                    exec_generic(&st, &a(&[b"FLUSHALL"])).await;
+                    st.fast_set(Bytes::copy_from_slice(&k), Bytes::from_static(b"1")).await;
+                    let f = if view == 0 { shard0_randomkey(&st, &k).await } else { shard0_scan(&st, &k).await };
+                    out.push((n, k, g, f));
+                }
+            }
+            views.push(out);
+        }
+        views
+    });
+    use HashMode::*;
+    for obs in &views {
+        if obs.iter().all(|(_, _, g, f)| *g && *f) || obs.iter().all(|(_, _, g, f)| !*g && !*f) {
+            continue; // uninformative view
+        }
+        for (g, f) in [(Raw, Raw), (Str, Raw), (Str, Str), (Raw, Str)] {
+            if obs
+                .iter()
+                .all(|(n, k, og, of)| (shard_of(g, k, *n) == 0) == *og && (shard_of(f, k, *n) == 0) == *of)
+            {
+                return Routing {
+                    generic: g,
+                    fast: f,
+                    calibrated: true,
+                };
+            }
+        }
+    }
+    // as read from the source since /repo 820df95: both entry points hash the bytes
     Routing {
-        generic: Str,
+        generic: Raw,
         fast: Raw,
         calibrated: false,
     }
@@ -1939,9 +1966,9 @@ fn main() {
     let _ = ROUTING.set(r);
     s.note(
         "routing_replica",
-        json!({"generic": format!("{:?}", r.generic), "fast": format!("{:?}", r.fast), "calibrated_against_randomkey_shard0": r.calibrated}),
+        json!({"generic": format!("{:?}", r.generic), "fast": format!("{:?}", r.fast), "calibrated_against_a_shard0_view": r.calibrated}),
     );
-    s.assume("key -> shard classification (used for the non-trivial rule and for known-finding exclusions, never as an oracle) replicates hash_key / hash_key_bytes: std DefaultHasher over <str as Hash> / <[u8] as Hash>, modulo N; calibrated against RANDOMKEY's shard-0 view when that view exists");
+    s.assume("key -> shard classification (used for the non-trivial rule and for known-finding exclusions, never as an oracle) replicates hash_key / hash_key_bytes: std DefaultHasher over <str as Hash> / <[u8] as Hash>, modulo N; calibrated against a public shard-0 view (RANDOMKEY while it only asks shard 0, else the first SCAN page) when one exists");
     s.assume("the TTL manager is modelled by evict_expired_all_shards at generated clock steps; both instances share one harness clock starting at 0");
     s.assume("the labels first_touch_after_deadline_no_tick* come from a harness-side note of deadlines set by syntactically recognised commands (SET PX|EX, PSETEX, SETEX, PEXPIRE, EXPIRE); classification only, never an oracle");
     s.assume("connection-level twin: the hook only accepts a wall-clock ShardedActorState, so expiry-bearing commands are not generated there");
